@@ -271,6 +271,15 @@ Proof.
     + right. exists e', cv', sa, sb, q. repeat split; auto. now right.
 Qed.
 
+
+(* a case value that was already listed (in this case) is rejected *)
+Lemma duplicate_case_value_rejected tv e vs seen hit s cv s1 :
+  eval0 e true (Some KInt) s = Ok (cv, s1) -> existsb (pyval_eqb cv) seen = true ->
+  case_scan tv (e :: vs) seen hit s = Err EValidation.
+Proof.
+  intros He Hd. cbn [case_scan]. unfold bindM at 1. rewrite He. unfold bindM at 1. rewrite Hd. reflexivity.
+Qed.
+
 (* one case body (or the default) is visited statement by statement in a fresh block scope *)
 Theorem switch_visits_exactly_the_selected_case target cases default out s s' :
   visit_switch check_only visit_rec call_rec target cases default s = Ok (out, s') ->
